@@ -4,7 +4,8 @@ usage: verify_seeded.py /tmp/seeded-out/C01/a [...]
 For each candidate: clean scratch worktree of /repo HEAD → unchanged binary; apply patch → builds? suite's 126
 stable tests pass? demo exits 1 with the changed binary and 0 with the unchanged one?  Only then copied."""
 import json, os, shutil, subprocess, sys, time
-WT = '/tmp/wt-verify'
+WT = os.environ.get('VERIFY_WT', '/tmp/wt-verify')
+TAG = os.path.basename(WT)
 ENV = dict(os.environ, CARGO_NET_OFFLINE='true', RUST_BACKTRACE='0')
 
 
@@ -23,7 +24,7 @@ def main():
     ensure_wt()
     rc, out = sh('cargo build --offline --bin xcp', cwd=WT)
     assert rc == 0, out[-2000:]
-    shutil.copy(WT + '/target/debug/xcp', '/tmp/xcp-orig-verify')
+    shutil.copy(WT + '/target/debug/xcp', f'/tmp/xcp-orig-{TAG}')
     for cand in sys.argv[1:]:
         cand = cand.rstrip('/')
         pid, x = cand.split('/')[-2], cand.split('/')[-1]
@@ -43,9 +44,9 @@ def main():
         rc, out = sh(f'/tmp/seeded-tools/baseline.sh {WT}', timeout=1800)
         res['suite'] = out.strip().split('\n')[-1]
         res['suite_passes'] = rc == 0
-        shutil.copy(WT + '/target/debug/xcp', '/tmp/xcp-changed-verify')
-        d1, o1 = sh(['bash', f'{cand}/demo.sh', '/tmp/xcp-changed-verify'], timeout=900, cwd=cand)
-        d0, o0 = sh(['bash', f'{cand}/demo.sh', '/tmp/xcp-orig-verify'], timeout=900, cwd=cand)
+        shutil.copy(WT + '/target/debug/xcp', f'/tmp/xcp-changed-{TAG}')
+        d1, o1 = sh(['bash', f'{cand}/demo.sh', f'/tmp/xcp-changed-{TAG}'], timeout=900, cwd=cand)
+        d0, o0 = sh(['bash', f'{cand}/demo.sh', f'/tmp/xcp-orig-{TAG}'], timeout=900, cwd=cand)
         res['demo_changed_exit'], res['demo_original_exit'] = d1, d0
         res['demo_changed_tail'], res['demo_original_tail'] = o1[-400:], o0[-400:]
         ok = res['suite_passes'] and d1 == 1 and d0 == 0
